@@ -245,6 +245,9 @@ func checkC05(w *World, st core.Status, r *RunResult) []Violation {
 	}
 	for _, o := range w.Obs {
 		p := o.Plan
+		if transportLimit(o, r) {
+			continue
+		}
 		ccfg := w.Sc.Clients[p.Client]
 		proto := ccfg.Proto
 		tag := proto.String() + "/" + p.Kind.String()
